@@ -347,6 +347,11 @@ func (l *comparableLeafNode) unlock() { l.mutex.Unlock() }
 type ComparableTree struct {
 	root  comparableNode
 	order int
+
+	// rootMutex guards the root field. It is held while root is read or
+	// replaced, and released only once the root node itself is locked, so a
+	// descent can never start from a stale root.
+	rootMutex sync.Mutex
 }
 
 // NewComparableTree returns a newly initialized ComparableTree of the specified
@@ -366,6 +371,8 @@ func NewComparableTree(order int) (*ComparableTree, error) {
 
 // Delete removes the key-value pair from the tree.
 func (t *ComparableTree) Delete(key Comparable) {
+	t.rootMutex.Lock()
+	defer t.rootMutex.Unlock()
 	t.root.lock()
 	defer t.root.unlock()
 
@@ -384,6 +391,7 @@ func (t *ComparableTree) Delete(key Comparable) {
 // Insert inserts the key-value pair into the tree, replacing the existing value
 // with the new value if the key is already in the tree.
 func (t *ComparableTree) Insert(key Comparable, value interface{}) {
+	t.rootMutex.Lock()
 	n := t.root
 	n.lock()
 
@@ -406,6 +414,7 @@ func (t *ComparableTree) Insert(key Comparable, value interface{}) {
 			n = right
 		}
 	}
+	t.rootMutex.Unlock()
 
 	for n.isInternal() {
 		parent := n.(*comparableInternalNode)
@@ -483,8 +492,10 @@ func (t *ComparableTree) Insert(key Comparable, value interface{}) {
 func (t *ComparableTree) Search(key Comparable) (interface{}, bool) {
 	var value interface{}
 	var ok bool
+	t.rootMutex.Lock()
 	n := t.root
 	n.lock()
+	t.rootMutex.Unlock()
 	for n.isInternal() {
 		parent := n.(*comparableInternalNode)
 		child := parent.children[comparableSearchLessThanOrEqualTo(key, parent.runts)]
@@ -513,6 +524,7 @@ func (t *ComparableTree) Search(key Comparable) (interface{}, bool) {
 // returns, the key will exist in the tree with the new value returned by the
 // callback function.
 func (t *ComparableTree) Update(key Comparable, callback func(interface{}, bool) interface{}) {
+	t.rootMutex.Lock()
 	n := t.root
 	n.lock()
 
@@ -535,6 +547,7 @@ func (t *ComparableTree) Update(key Comparable, callback func(interface{}, bool)
 			n = right
 		}
 	}
+	t.rootMutex.Unlock()
 
 	for n.isInternal() {
 		parent := n.(*comparableInternalNode)
@@ -619,8 +632,10 @@ func (t *ComparableTree) Update(key Comparable, callback func(interface{}, bool)
 // of the locked node. The leaf node is only unlocked either by closing the
 // Cursor, or after all key-value pairs have been visited using Scan.
 func (t *ComparableTree) NewScanner(key Comparable) *ComparableCursor {
+	t.rootMutex.Lock()
 	n := t.root
 	n.lock()
+	t.rootMutex.Unlock()
 	for n.isInternal() {
 		parent := n.(*comparableInternalNode)
 		child := parent.children[comparableSearchLessThanOrEqualTo(key, parent.runts)]
